@@ -53,6 +53,19 @@ class Driver:
         self.K = K
         self.g = import_geometer()
 
+    def A(self, v):
+        """the coordinates as an array of a dtype drawn by the driver: int64 mostly, also float64, int32 and - when no entry is
+        negative - uint32 / uint64 (what the library computes must not depend on how the exact integers are stored)"""
+        a = np.array(v)
+        u = self.r.random()
+        if u < 0.5 or a.dtype.kind != "i":
+            return a
+        if u < 0.65:
+            return a.astype(np.float64)
+        if u < 0.8 or a.min() < 0:
+            return a.astype(np.int32)
+        return a.astype(np.uint32 if u < 0.9 else np.uint64)
+
     def ints(self, n, lo=None, hi=None):
         lo = -self.K if lo is None else lo
         hi = self.K if hi is None else hi
@@ -81,7 +94,7 @@ class Driver:
     # ---- one event per operation ------------------------------------------------------------
     def ev(self, op):
         g, r = self.g, self.r
-        P = lambda v: g.Point(np.array(v))  # noqa: E731
+        P = lambda v: g.Point(self.A(v))  # noqa: E731
         if op == "dist2_pp":
             dim = r.choice([2, 3])
             p, q = self.fin(dim), (self.fin(dim))
@@ -94,12 +107,12 @@ class Driver:
             if r.random() < 0.15:       # incident
                 h[-1] = 0
                 h = [x * p[-1] for x in h[:-1]] + [-sum(a * b for a, b in zip(h[:-1], p[:-1]))]
-            H = g.Line(np.array(h)) if dim == 2 else g.Plane(np.array(h))
+            H = g.Line(self.A(h)) if dim == 2 else g.Plane(self.A(h))
             return [p, h], rat(g.dist(H, P(p)) ** 2 if r.random() < 0.5 else g.dist(P(p), H) ** 2)
         if op in ("foot_ph", "mirror_ph"):
             dim = r.choice([2, 3])
             p, h = self.fin(dim), self.hyper(dim)
-            H = g.Line(np.array(h)) if dim == 2 else g.Plane(np.array(h))
+            H = g.Line(self.A(h)) if dim == 2 else g.Plane(self.A(h))
             res = H.project(P(p)) if op == "foot_ph" else H.mirror(P(p))
             return [p, h], cls(res, dim + 1)
         if op == "midpoint":
@@ -161,14 +174,14 @@ class Driver:
                 M = [self.ints(dim + 1, -3, 3) for _ in range(dim + 1)]
                 if abs(round(np.linalg.det(np.array(M)))) >= 1:
                     break
-            T = g.Transformation(np.array(M))
+            T = g.Transformation(self.A(M))
             if op == "apply_point":
                 p = self.ints(dim + 1)
                 if not any(p):
                     p[0] = 1
                 return [M, p], cls(T * P(p), dim + 1)
             h = self.hyper(dim)
-            H = g.Line(np.array(h)) if dim == 2 else g.Plane(np.array(h))
+            H = g.Line(self.A(h)) if dim == 2 else g.Plane(self.A(h))
             return [M, h], cls(T * H, dim + 1)
         if op == "is_collinear":
             a, b = self.fin(2), self.fin(2)
@@ -189,13 +202,13 @@ class Driver:
                     Q[2][2] = -rest // (w * w)
             if not np.any(Q):
                 Q[0][0] = 1
-            return [Q, p], bool(g.Conic(np.array(Q)).contains(P(p)))
+            return [Q, p], bool(g.Conic(self.A(Q)).contains(P(p)))
         if op == "on_hyper":
             dim = r.choice([2, 3])
             p, h = self.fin(dim), self.hyper(dim)
             if r.random() < 0.5:
                 h = [x * p[-1] for x in h[:-1]] + [-sum(a * b for a, b in zip(h[:-1], p[:-1]))]
-            H = g.Line(np.array(h)) if dim == 2 else g.Plane(np.array(h))
+            H = g.Line(self.A(h)) if dim == 2 else g.Plane(self.A(h))
             return [p, h], bool(H.contains(P(p)))
         raise ValueError(op)
 
